@@ -63,6 +63,7 @@ pub const VARIANTS: &[(&str, &[&str])] = &[
     ("barriers-many", &["C06"]),
     ("weak-many", &["C05"]),
     ("handles-many", &["C14"]),
+    ("cycles-many", &["C09", "C10"]),
 ];
 
 /// A wide root: n children of one object (the gray queue holds them all at once), n weak
@@ -324,6 +325,49 @@ fn scenario(variant: &str, n: usize) -> Result<(), String> {
             arena.finish_cycle();
             if drops() != n + n / 2 {
                 return Err(format!("every handle is gone and two cycles ran: {} of {} stashed values were destructed", drops(), n + n / 2));
+            }
+        }
+        "cycles-many" => {
+            // a long history instead of a large heap: tens of thousands of paced cycles over a small
+            // live set with steady churn (drift of counters, debt that creeps, a heap that grows)
+            const RING: usize = 512;
+            let mut arena = Arena::<Rootable![Wide<'_>]>::new(|mc| {
+                let w = wide(mc);
+                let mut v = w.kids.borrow_mut(mc);
+                for i in 0..RING {
+                    v.push(Gc::new(mc, RefLock::new(Par { c: Cnt(i as u32), kid: None })));
+                }
+                drop(v);
+                w
+            });
+            let m = arena.metrics().clone();
+            let iters = (n / 2).max(10_000);
+            let live = 3 + 2 * RING;
+            for i in 0..iters {
+                arena.mutate(|mc, root| {
+                    root.kids.borrow_mut(mc)[i % RING] = Gc::new(mc, RefLock::new(Par { c: Cnt(i as u32), kid: Some(Gc::new(mc, Cnt(i as u32))) }));
+                    garbage(mc, 3);
+                });
+                arena.collect_debt();
+                let d = m.allocation_debt();
+                if d != 0.0 {
+                    return Err(format!("iteration {i}: collect_debt returned with allocation_debt = {d}"));
+                }
+                if m.total_gc_count() > 32 * live {
+                    return Err(format!("iteration {i}: {live} objects are reachable, every call pays its debt, yet total_gc_count has grown to {}", m.total_gc_count()));
+                }
+                if i >= RING && i % 4096 == 0 {
+                    arena.finish_cycle();
+                    arena.finish_cycle();
+                    let made = RING + 5 * (i + 1);
+                    if m.total_gc_count() != live || drops() != made - 2 * RING {
+                        return Err(format!("iteration {i}: after two full cycles total_gc_count reads {} (expected {live}) and {} of {made} values have been destructed (expected {})", m.total_gc_count(), drops(), made - 2 * RING));
+                    }
+                }
+            }
+            drop(arena);
+            if drops() != RING + 5 * iters || m.total_gc_count() != 0 {
+                return Err(format!("{} of {} destructors ran by the time the arena was gone, count {}", drops(), RING + 5 * iters, m.total_gc_count()));
             }
         }
         _ => return Err(format!("unknown scale variant {variant}")),
